@@ -46,6 +46,8 @@ def strategy_(g):
     case["tol"] = 10.0 ** g.rnd.uniform(-10, -3)
     # the weights of some edges are re-assigned (edge.information = new matrix) after the graph was built and evaluated once
     case["reweight"] = [[g.rnd.randrange(10**6), g.choice([0.01, 0.1, 10.0, 100.0])] for _ in range(g.rnd.randint(1, 3))] if g.choice([False, False, True]) else []
+    # coarse-to-fine on ONE Graph object: a first run with a loose tolerance, then the run under test with the strict one
+    case["coarse_first"] = g.choice([False, False, False, True])
     # staged optimisation on ONE Graph object: some free vertices are held for a first (single-iteration) run and released afterwards
     case["staged"] = []
     if g.choice([False, False, False, True]):
@@ -88,6 +90,11 @@ def check(case, ctx):
             # the partial step left the calibrated neighbourhood (nothing is claimed about what follows)
             ctx.event("discarded:staged-step-increased-chi2")
             return
+    if case.get("coarse_first"):
+        ctx.event("coarse-run-first")
+        GC.optimize_quiet(g, tol=1e-2, max_iter=50, fix_first_pose=ff, verbose=False)
+        if not GC.all_finite(g):
+            return ctx.fail("diverged-inside-neighbourhood", "non-finite poses after a coarse optimize() inside the calibrated neighbourhood")
     if case.get("reweight"):
         # a doubtful constraint is down-weighted (or a trusted one up-weighted) by assignment on the live, already evaluated graph
         ctx.event("information-reassigned-on-live-graph")
